@@ -167,7 +167,13 @@ def latency(n: int, who: int, h: int, stubborn: bool) -> bool:
     who = pick(who, 0, n - 1)
     h = pick(h, 0, 30)
     T = CASE["timeout"]                   # seconds
-    K = KS.Kernel(budget=T + 8)
+    noisy = bool(CASE.get("noisy"))
+    K = KS.Kernel(budget=(T + 8) * (3 if noisy else 1))
+    if noisy:
+        # the master is woken up every 0.5 s (USR1 = "reopen logs", harmless to workers): timeouts are still detected
+        K.master_signals = [int(signal.SIGUSR1)] * (2 * (T + 6))
+        K.signal_gap_ds = 5
+        K.model_pipe = True
     K.hang = {who: h}
     K.stubborn = {who}                    # a hung worker does not react to TERM ...
     arb = mk_arbiter(K, n, timeout=T)
@@ -184,7 +190,7 @@ def latency(n: int, who: int, h: int, stubborn: bool) -> bool:
     hung = pids[who]
     sig_to = {}
     for ev in K.events:
-        if ev[0] == "kill":
+        if ev[0] == "kill" and ev[2] != int(signal.SIGUSR1):
             sig_to.setdefault(ev[1], []).append((ev[2], ev[3]))
     # healthy initial workers: never signalled
     for i in range(n):
@@ -346,6 +352,63 @@ def sync_gaps(tape: List[int]) -> bool:
     return True
 
 
+DUR = [0, 999, 1000, 2000, 3000, 3999]
+
+
+def sync_gaps_real(i1: int, i2: int, i3: int, i4: int, i5: int) -> bool:
+    """
+    pre: all(0 <= i <= 5 for i in (i1, i2, i3, i4, i5))
+    pre: i1 == CASE["i1"]
+    post: __return__
+    """
+    # as sync_gaps, with the real WorkerTmp.notify()/last_update() between the loop and the arbiter's test
+    # `monotonic() - last_update() <= timeout`, evaluated whenever virtual time has advanced
+    timeout_s = 4
+    T = timeout_s * 1000
+    tape = [DUR[CASE["i1"]]] + [DUR[pick(i, 0, 5)] for i in (i2, i3, i4, i5)[:CASE["tape"] - 1]]
+    clock = [0]
+    notes = []
+    w, select = _sync_worker(timeout_s, notes, clock, CASE["listeners"], list(tape))
+    mtime = {7: 0.0}
+    killed = []
+
+    def check():
+        if clock[0] / 1000.0 - tmp.last_update() > timeout_s:
+            killed.append(clock[0])
+    inner_handle = w.handle
+
+    def handle(listener, client, addr):
+        inner_handle(listener, client, addr)
+        check()
+    w.handle = handle
+    w.accept = lambda l: handle(l, *l.accept())
+
+    def select2(r, w_, x, t):
+        res = select(r, w_, x, t)
+        check()
+        return res
+    saved = S.select, S.os, WT.os, WT.time, WT.tempfile, WT.util
+    S.select = ns("S.select", select=select2)
+    S.os = ns("S.os", getppid=lambda: 1, read=lambda fd, n: b"")
+    WT.os = ns("WT.os", utime=lambda fd, times: mtime.__setitem__(fd, times[1]),
+               fstat=lambda fd: SimpleNamespace(st_mtime=mtime[fd]), umask=lambda m: 0o22, geteuid=lambda: 0,
+               getegid=lambda: 0, close=lambda fd: None, path=SimpleNamespace(isdir=lambda p: True),
+               fdopen=lambda fd, m, b: SimpleNamespace(fileno=lambda: fd, close=lambda: None))
+    WT.time = ns("WT.time", monotonic=lambda: clock[0] / 1000.0)
+    WT.tempfile = ns("WT.tempfile", mkstemp=lambda prefix=None, dir=None: (7, "/tmp/wg"))
+    WT.util = ns("WT.util", chown=lambda *a: None, unlink=lambda n: None)
+    try:
+        tmp = WT.WorkerTmp(SimpleNamespace(umask=0, worker_tmp_dir=None, uid=0, gid=0))     # the real constructor
+        w.tmp = tmp
+        w.run()
+        check()
+    except Assume:
+        return True
+    finally:
+        S.select, S.os, WT.os, WT.time, WT.tempfile, WT.util = saved
+    return not killed
+
+
 def sync_gaps_twin(tape: List[int]) -> bool:
     """
     pre: 1 <= len(tape) <= CASE["tape"]
@@ -433,7 +496,8 @@ OBLIGATIONS = [
     Ob("C11.boot_hang", "boot_hang", timeout=600,
        bound="real WorkerTmp + murder_workers: wall clock 0..2e9 s, monotonic clock 0..1e6 s at creation, timeout 1..60 s, "
              "silent for timeout+1..5 s, before or after the first heartbeat (all symbolic ints)"),
-    Ob("C11.latency", "latency", cases={"quick": [{"n": 2, "timeout": 2}], "thorough": [{"n": 3, "timeout": 2}, {"n": 2, "timeout": 3}]},
+    Ob("C11.latency", "latency", cases={"quick": [{"n": 2, "timeout": 2}, {"n": 2, "timeout": 2, "noisy": True}],
+                                        "thorough": [{"n": 3, "timeout": 2}, {"n": 2, "timeout": 3}, {"n": 3, "timeout": 2, "noisy": True}]},
        timeout=900, bound="run() loop, 1..2 (thorough 3) workers, one stops heartbeating at a symbolic instant 0..3 s, timeout 2 s (3 s)"),
     Ob("C11.latency.twin", "latency_twin", cases=[{"n": 2, "timeout": 2}], expect="refute", timeout=300),
     Ob("C11.latency_kill", "latency_kill", cases={"quick": [{"n": 2, "timeout": 2}], "thorough": [{"n": 3, "timeout": 2}]},
@@ -446,6 +510,11 @@ OBLIGATIONS = [
        timeout={"quick": 600, "thorough": 2400},
        bound="SyncWorker.run with 1 or 2 listeners, timeout in {1,4} s (thorough +30), tape of <=4 (6) events: accept-or-EAGAIN, "
              "request duration < timeout (ms, symbolic), select returning after <= its timeout (ms, symbolic)"),
+    Ob("C11.sync_gaps_real", "sync_gaps_real",
+       cases={"quick": [{"listeners": 1, "tape": 4, "i1": i} for i in range(6)] + [{"listeners": 2, "tape": 5, "i1": i} for i in range(6)],
+              "thorough": [{"listeners": l, "tape": 5, "i1": i} for l in (1, 2) for i in range(6)]},
+       timeout=1200, bound="as sync_gaps with the real WorkerTmp.notify/last_update and the arbiter's own test; waits / request "
+                           "durations from {0,999,1000,2000,3000,3999} ms, timeout 4 s, tape 4-5"),
     Ob("C11.sync_gaps.twin", "sync_gaps_twin", cases=[{"timeout": 4, "listeners": 1, "tape": 4}], expect="refute", timeout=120),
     Ob("C11.gthread_gaps", "gthread_gaps",
        cases=[{"timeout": t, "tape": 4, "wc": 2, "nr_conns": nc} for t in (1, 2) for nc in (0, 2)],
